@@ -637,43 +637,24 @@ fn shown(v: &Val, open: &mut Vec<usize>, known: &mut std::collections::HashMap<u
     })
 }
 
-/// Ok(None): not judged (a line may not end, or a value whose text is left open)
-fn repl_case(lines: &[String]) -> Result<Option<()>, Fail> {
+/// What the program writes before it reads anything (a banner, if any) and before every line (the prompt), measured on the
+/// program itself: its output for no input at all is banner + prompt, for one empty line banner + prompt + prompt.
+fn repl_calibration() -> Option<(String, String)> {
+    static CAL: std::sync::OnceLock<Option<(String, String)>> = std::sync::OnceLock::new();
+    CAL.get_or_init(|| {
+        let s0 = repl_io("")?.0;
+        let s1 = repl_io("\n")?.0;
+        let prompt = s1.strip_prefix(s0.as_str())?.to_string();
+        let banner = s0.strip_suffix(prompt.as_str())?.to_string();
+        Some((banner, prompt))
+    })
+    .clone()
+}
+
+/// (stdout, stderr, exit code) of the prompt program for the given standard input
+fn repl_io(input: &str) -> Option<(String, String, Option<i32>)> {
     use std::io::{Read, Write};
     use std::os::unix::process::CommandExt;
-    // what the library answers
-    let mut want_out = String::new();
-    let mut want_err: Vec<&'static str> = Vec::new();
-    let mut s = session_begin();
-    let mut judged = true;
-    for l in lines {
-        let o = s.line(l, BUDGET);
-        want_out.push_str(">>> ");
-        want_out.push_str(&o.output);
-        match &o.outcome {
-            Outcome::Value(v) => match shown(v, &mut Vec::new(), &mut std::collections::HashMap::new(), true) {
-                Some(t) if t.is_empty() && matches!(v, Val::Null) => {}
-                Some(t) => {
-                    want_out.push_str(&t);
-                    want_out.push('\n');
-                }
-                None => judged = false,
-            },
-            Outcome::Error(k) => want_err.push(k.name()),
-            _ => judged = false,
-        }
-        if !judged {
-            break;
-        }
-    }
-    s.end();
-    crate::engine::install_gc_observer();
-    if !judged {
-        return Ok(None);
-    }
-    want_out.push_str(">>> ");
-    let input: String = lines.iter().map(|l| format!("{l}\n")).collect();
-    let case = json!({"kind": "repl", "lines": lines});
     let mut child = std::process::Command::new("timeout")
         .process_group(0)
         .arg("--signal=KILL")
@@ -683,10 +664,7 @@ fn repl_case(lines: &[String]) -> Result<Option<()>, Fail> {
         .stdout(std::process::Stdio::piped())
         .stderr(std::process::Stdio::piped())
         .spawn()
-        .unwrap_or_else(|e| {
-            eprintln!("C17: cannot run {}: {e} (the check script builds it)", repl_exe().display());
-            std::process::exit(2)
-        });
+        .ok()?;
     if let Some(mut si) = child.stdin.take() {
         let _ = si.write_all(input.as_bytes());
     }
@@ -709,9 +687,75 @@ fn repl_case(lines: &[String]) -> Result<Option<()>, Fail> {
         String::from_utf8_lossy(&b).to_string()
     });
     let st = child.wait();
-    let got_out = t_out.join().unwrap_or_default();
-    let got_err = t_err.join().unwrap_or_default();
-    let code = st.ok().and_then(|s| s.code());
+    let out = t_out.join().unwrap_or_default();
+    let err = t_err.join().unwrap_or_default();
+    Some((out, err, st.ok().and_then(|s| s.code())))
+}
+
+/// the error kinds named in a text, in order of appearance
+fn kinds_named(text: &str) -> Vec<&'static str> {
+    let names = ["SyntaxError", "ReferenceError", "TypeError", "IndexError", "ArgumentError"];
+    let mut found: Vec<(usize, &'static str)> = Vec::new();
+    for n in names {
+        let mut from = 0;
+        while let Some(p) = text[from..].find(n) {
+            found.push((from + p, n));
+            from += p + n.len();
+        }
+    }
+    found.sort();
+    found.into_iter().map(|x| x.1).collect()
+}
+
+/// Ok(None): not judged (a line may not end, or a value whose text is left open)
+fn repl_case(lines: &[String]) -> Result<Option<()>, Fail> {
+    let (banner, prompt) = match repl_calibration() {
+        Some(c) => c,
+        None => {
+            eprintln!("C17: cannot run {} (the check script builds it)", repl_exe().display());
+            std::process::exit(2)
+        }
+    };
+    // what the library answers
+    let mut want_out = banner.clone();
+    let mut want_err: Vec<&'static str> = Vec::new();
+    let mut s = session_begin();
+    let mut judged = true;
+    for l in lines {
+        let o = s.line(l, BUDGET);
+        want_out.push_str(&prompt);
+        want_out.push_str(&o.output);
+        match &o.outcome {
+            Outcome::Value(v) => match shown(v, &mut Vec::new(), &mut std::collections::HashMap::new(), true) {
+                Some(t) if t.is_empty() && matches!(v, Val::Null) => {}
+                Some(t) => {
+                    want_out.push_str(&t);
+                    want_out.push('\n');
+                }
+                None => judged = false,
+            },
+            Outcome::Error(k) => want_err.push(k.name()),
+            _ => judged = false,
+        }
+        if !judged {
+            break;
+        }
+    }
+    s.end();
+    crate::engine::install_gc_observer();
+    if !judged {
+        return Ok(None);
+    }
+    want_out.push_str(&prompt);
+    let input: String = lines.iter().map(|l| format!("{l}\n")).collect();
+    let case = json!({"kind": "repl", "lines": lines});
+    let (got_out, got_err, code) = match repl_io(&input) {
+        Some(x) => x,
+        None => {
+            eprintln!("C17: cannot run {}", repl_exe().display());
+            std::process::exit(2)
+        }
+    };
     if code != Some(0) {
         // (a program that does not end is killed after 60 s and shows here as well)
         return Err(("repl:does-not-end-in-order".into(), case, "exit code 0 at the end of the input".into(), format!("status {code:?}; stderr: {}", got_err.chars().take(300).collect::<String>())));
@@ -719,8 +763,9 @@ fn repl_case(lines: &[String]) -> Result<Option<()>, Fail> {
     if got_out != want_out {
         return Err(("repl:stdout".into(), case, format!("{want_out:?}"), format!("{got_out:?}")));
     }
-    let got_kinds: Vec<String> = got_err.lines().map(|l| l.split('(').next().unwrap_or("").to_string()).collect();
-    if got_kinds != want_err.iter().map(|k| k.to_string()).collect::<Vec<_>>() {
+    // (how an error is worded is the program's business; which kinds it names, in which order, is not)
+    let got_kinds = kinds_named(&got_err);
+    if got_kinds != want_err {
         return Err(("repl:stderr".into(), case, format!("{want_err:?}"), format!("{got_kinds:?}")));
     }
     Ok(Some(()))
